@@ -92,3 +92,32 @@ Fixpoint run_history {A} (f : key -> A) (store : list (key * A)) (kpl : nat) (rr
       let (store'', ev') := run_history f store' kpl rr latent rest in
       (store'', ev ++ ev')
   end.
+
+(* ---- the rule before fix 516fd12 (kept for the refutation C09_zero_level_rule_refuted): the level-zero branch of SparseGrid.refine
+   handed out its grid point whether or not an evaluation was stored for it; only the duplicates inside one batch were removed *)
+Definition all_zero (beta : list nat) : bool := forallb (Nat.eqb 0) beta.
+Fixpoint batch_designs_former (store : list key) (kpl : nat) (rr : bool) (latent : list nat)
+                              (indices : list (list nat * list nat)) (sofar : list key) : list (list key) :=
+  match indices with
+  | [] => []
+  | (alpha, beta) :: rest =>
+      let coords := grid_coords kpl rr latent beta in
+      let fresh := if all_zero beta then coords else new_coords store alpha coords in
+      let design := filter (fun k => negb (kmem k sofar)) (map (fun c => (alpha, c)) fresh) in
+      design :: batch_designs_former store kpl rr latent rest (sofar ++ design)
+  end.
+Definition activate_batch_former {A} (f : key -> A) (store : list (key * A)) (kpl : nat) (rr : bool) (latent : list nat)
+                                 (indices : list (list nat * list nat)) : list (key * A) * list key :=
+  let designs := batch_designs_former (map fst store) kpl rr latent indices [] in
+  let evals := concat designs in
+  (store ++ concat (slice_back designs (map f evals)), evals).
+Fixpoint run_history_former {A} (f : key -> A) (store : list (key * A)) (kpl : nat) (rr : bool) (latent : list nat)
+                            (batches : list (list (list nat * list nat))) : list (key * A) * list key :=
+  match batches with
+  | [] => (store, [])
+  | b :: rest =>
+      let (store', ev) := activate_batch_former f store kpl rr latent b in
+      let (store'', ev') := run_history_former f store' kpl rr latent rest in
+      (store'', ev ++ ev')
+  end.
+
